@@ -70,22 +70,42 @@ func hEnvelope(creds []vc.VerifiableCredential) Envelope {
 	}
 }
 
+// hWitnessClass labels the path with the (single) witness class its findings belong to. Paths that already
+// carry the class of the pick-without-max panic are not examined further for the other two classes (keeps
+// the (site, class) identities of the findings apart): false.
+func hWitnessClass(def PresentationDefinition, creds []vc.VerifiableCredential, duplicate bool) bool {
+	if !duplicate && !hSharedCredential(def, creds) {
+		return true
+	}
+	for _, r := range def.SubmissionRequirements {
+		if hPanicsToday(r) {
+			vCover("skipped-second-class")
+			return false
+		}
+	}
+	if duplicate {
+		vClass("descriptor map names an input descriptor twice")
+	} else {
+		vClass("a credential satisfies several descriptors")
+	}
+	return true
+}
+
 // hCheckAccepted: what the property demands when the verifier accepts submission `sub` for def over the
 // presented credentials.
 func hCheckAccepted(id string, def PresentationDefinition, presented []vc.VerifiableCredential, sub PresentationSubmission, result map[string]vc.VerifiableCredential) {
 	in := make([]bool, len(def.InputDescriptors))
 	env := hEnvelopeModel{creds: presented}
 	duplicate := false
+	seen := make([]bool, len(hDescIDs))
 	for _, m := range sub.DescriptorMap {
-		j := hDescIndex(m.Id)
-		if j >= 0 && j < len(in) && in[j] {
-			duplicate = true
+		if j := hDescIndex(m.Id); j >= 0 {
+			duplicate = duplicate || seen[j]
+			seen[j] = true
 		}
 	}
-	if duplicate {
-		vClass("descriptor map names an input descriptor twice")
-	} else if hSharedCredential(def, presented) {
-		vClass("a credential satisfies several descriptors")
+	if !hWitnessClass(def, presented, duplicate) {
+		return
 	}
 	for _, m := range sub.DescriptorMap {
 		j := hDescIndex(m.Id)
@@ -152,10 +172,10 @@ func H12e() {
 		}
 		vCover("wallet-selection")
 		vAssert(len(sub.DescriptorMap) == len(sign.VerifiableCredentials), "H12e.one_mapping_per_credential: number of selected credentials differs from the number of mappings")
-		if hSharedCredential(def, wallet) {
-			vClass("a credential satisfies several descriptors")
-		}
 		result, err := sub.Validate(hEnvelope(sign.VerifiableCredentials), def)
+		if !hWitnessClass(def, wallet, false) {
+			return
+		}
 		vAssert(err == nil, "H12e.own_submission_accepted: the verifier rejects the wallet's own submission for the same definition")
 		if err != nil {
 			return
